@@ -41,8 +41,19 @@ type testFn struct {
 }
 
 func makeTestFn(r *core.Rand) testFn {
-	fam := r.Intn(7)
+	fam := r.Intn(8)
 	switch fam {
+	case 7: // strongly curved monotone: x^k - c or 1-(1-x)^k - c on [0,1] (one bracket end survives many iterations)
+		k := r.Range(8, 60)
+		cc := r.Range(0.01, 0.99)
+		if r.Bool(0.5) {
+			f := func(x float64) float64 { return math.Pow(math.Max(x, 0), k) - cc }
+			df := func(x float64) float64 { return k * math.Pow(math.Max(x, 0), k-1) }
+			return testFn{"power-k", f, df, true, k, 0, 1}
+		}
+		f := func(x float64) float64 { return 1 - math.Pow(math.Max(1-x, 0), k) - cc }
+		df := func(x float64) float64 { return k * math.Pow(math.Max(1-x, 0), k-1) }
+		return testFn{"one-minus-power-k", f, df, true, k, 0, 1}
 	case 0: // linear
 		a := r.LogRange(1e-3, 1e3)
 		root := r.Range(-50, 50)
